@@ -12,14 +12,17 @@
 //! `zprobe a b` (last line of some `NotZero` cases) records what a zero written through `edge_weight_mut`
 //! does: outside the documented use of `NotZero`, compared with the model only.
 use crate::common::*;
+use crate::iterlaws::{iter_laws, law_verdict};
 use crate::rng::Rng;
 use petgraph::data::Build;
-use petgraph::graph::IndexType;
+use petgraph::graph::{Frozen, IndexType};
 use petgraph::matrix_graph::{MatrixError, MatrixGraph, NodeIndex, NotZero, Nullable};
 use petgraph::visit::{
-    GetAdjacencyMatrix, IntoEdgeReferences, IntoEdges, IntoEdgesDirected, IntoNeighbors,
-    IntoNeighborsDirected, IntoNodeIdentifiers, IntoNodeReferences, NodeIndexable,
+    EdgeCount, EdgeFiltered, GetAdjacencyMatrix, GraphProp, IntoEdgeReferences, IntoEdges, IntoEdgesDirected,
+    IntoNeighbors, IntoNeighborsDirected, IntoNodeIdentifiers, IntoNodeReferences, NodeCount, NodeFiltered,
+    NodeIndexable, Reversed, UndirectedAdaptor, VisitMap, Visitable,
 };
+use std::fmt::Debug;
 use petgraph::{Directed, Direction, EdgeType, Undirected};
 use std::collections::hash_map::RandomState;
 
@@ -29,6 +32,139 @@ type MG<Ty, Null, Ix> = MatrixGraph<i32, i32, RandomState, Ty, Null, Ix>;
 trait DirObs {
     fn nbd(&self, a: usize, d: Direction) -> Option<Vec<usize>>;
     fn edd(&self, a: usize, d: Direction) -> Option<Vec<(usize, usize, i32)>>;
+    /// iterator laws of `neighbors_directed` / `edges_directed` (fresh and after `k` items), `Debug` of them,
+    /// and the adaptor views that need the directed traits; `None` on undirected matrices
+    fn dir_laws(&self, a: usize, k: usize) -> Option<Option<String>>;
+}
+/// An iterator that can be made again: `clone()` = make it afresh and skip what had been skipped at
+/// construction.  (`#[derive(Clone)]` on the matrix iterators demands `Null: Clone`, which `NotZero` is not,
+/// so the laws — which consume one iterator in several ways — go through this wrapper; `iterlaws` only ever
+/// clones the iterator it was handed, never a partly consumed copy.)  Every overridable method is forwarded.
+struct Re<'f, I> {
+    mk: &'f dyn Fn() -> I,
+    skip: usize,
+    it: I,
+}
+impl<'f, I: Iterator> Re<'f, I> {
+    fn new(mk: &'f dyn Fn() -> I, skip: usize) -> Self {
+        let mut it = mk();
+        for _ in 0..skip {
+            it.next();
+        }
+        Re { mk, skip, it }
+    }
+}
+impl<'f, I: Iterator> Clone for Re<'f, I> {
+    fn clone(&self) -> Self {
+        Re::new(self.mk, self.skip)
+    }
+}
+impl<'f, I: Iterator> Iterator for Re<'f, I> {
+    type Item = I::Item;
+    fn next(&mut self) -> Option<I::Item> {
+        self.it.next()
+    }
+    fn size_hint(&self) -> (usize, Option<usize>) {
+        self.it.size_hint()
+    }
+    fn nth(&mut self, n: usize) -> Option<I::Item> {
+        self.it.nth(n)
+    }
+    fn count(self) -> usize {
+        self.it.count()
+    }
+    fn last(self) -> Option<I::Item> {
+        self.it.last()
+    }
+    fn fold<B, F: FnMut(B, I::Item) -> B>(self, init: B, f: F) -> B {
+        self.it.fold(init, f)
+    }
+}
+/// the laws of the iterator `mk()` as handed out, and of it after `k` items have been taken
+fn laws_fresh_mid<I>(what: &str, mk: &dyn Fn() -> I, k: usize) -> Option<String>
+where
+    I: Iterator,
+    I::Item: PartialEq + Debug,
+{
+    if let Some(e) = iter_laws(Re::new(mk, 0)) {
+        return Some(format!("{} (fresh): {}", what, e));
+    }
+    iter_laws(Re::new(mk, k)).map(|e| format!("{} (after {} x next): {}", what, k, e))
+}
+/// `Debug` and `Clone` of the iterator structs (they exist when the null element is `Debug` / `Clone`:
+/// `Option<E>`, not `NotZero<E>`): `{:?}` / `{:#?}` never panic; a clone taken mid-iteration goes on alike
+trait DbgObs {
+    fn dbg_iters(&self, a: usize, k: usize) -> Option<String>;
+    /// `None`: the graph type is not `Clone`
+    fn clone_law(&self, seed: u64, prior_cap: usize, prior_nodes: usize) -> Option<Option<String>>;
+}
+fn dbg_clone<I: Iterator + Clone + Debug>(what: &str, mut it: I, k: usize) -> Option<String>
+where
+    I::Item: PartialEq + Debug,
+{
+    let _ = format!("{:?} {:#?}", it, it);
+    for _ in 0..k {
+        it.next();
+    }
+    let _ = format!("{:?} {:#?}", it, it);
+    let c = it.clone();
+    same(&format!("{}: a clone taken after {} items", what, k), c.collect::<Vec<_>>(), it.collect::<Vec<_>>())
+}
+impl<Ix: IndexType> DbgObs for MG<Directed, Option<i32>, Ix> {
+    fn clone_law(&self, seed: u64, prior_cap: usize, prior_nodes: usize) -> Option<Option<String>> {
+        Some(clone_law_opt(self, seed, prior_cap, prior_nodes))
+    }
+    fn dbg_iters(&self, a: usize, k: usize) -> Option<String> {
+        let ia = NodeIndex::<Ix>::new(a);
+        first_some(vec![
+            dbg_clone("node_identifiers", self.node_identifiers(), k),
+            dbg_clone("node_references", self.node_references(), k),
+            dbg_clone("edge_references", self.edge_references(), k),
+            dbg_clone("neighbors", self.neighbors(ia), k),
+            dbg_clone("edges", self.edges(ia), k),
+            dbg_clone("neighbors_directed in", self.neighbors_directed(ia, Direction::Incoming), k),
+            dbg_clone("edges_directed in", self.edges_directed(ia, Direction::Incoming), k),
+            dbg_clone("edges_directed out", self.edges_directed(ia, Direction::Outgoing), k),
+        ])
+    }
+}
+impl<Ix: IndexType> DbgObs for MG<Undirected, Option<i32>, Ix> {
+    fn clone_law(&self, seed: u64, prior_cap: usize, prior_nodes: usize) -> Option<Option<String>> {
+        Some(clone_law_opt(self, seed, prior_cap, prior_nodes))
+    }
+    fn dbg_iters(&self, a: usize, k: usize) -> Option<String> {
+        let ia = NodeIndex::<Ix>::new(a);
+        first_some(vec![
+            dbg_clone("node_identifiers", self.node_identifiers(), k),
+            dbg_clone("node_references", self.node_references(), k),
+            dbg_clone("edge_references", self.edge_references(), k),
+            dbg_clone("neighbors", self.neighbors(ia), k),
+            dbg_clone("edges", self.edges(ia), k),
+        ])
+    }
+}
+impl<Ty: EdgeType, Ix: IndexType> DbgObs for MG<Ty, NotZero<i32>, Ix> {
+    fn clone_law(&self, _: u64, _: usize, _: usize) -> Option<Option<String>> {
+        None
+    }
+    fn dbg_iters(&self, a: usize, k: usize) -> Option<String> {
+        // `NotZero` is neither `Debug` nor `Clone`: only the node iterators have the impls
+        let _ = a;
+        first_some(vec![
+            dbg_clone("node_identifiers", self.node_identifiers(), k),
+            dbg_clone("node_references", self.node_references(), k),
+        ])
+    }
+}
+fn first_some(v: Vec<Option<String>>) -> Option<String> {
+    v.into_iter().flatten().next()
+}
+fn same<T: PartialEq + Debug>(what: &str, a: T, b: T) -> Option<String> {
+    if a == b {
+        None
+    } else {
+        Some(format!("{}: {:?} vs {:?}", what, a, b))
+    }
 }
 impl<Null: Nullable<Wrapped = i32>, Ix: IndexType> DirObs for MG<Directed, Null, Ix> {
     fn nbd(&self, a: usize, d: Direction) -> Option<Vec<usize>> {
@@ -48,6 +184,44 @@ impl<Null: Nullable<Wrapped = i32>, Ix: IndexType> DirObs for MG<Directed, Null,
                 .collect()
         })
     }
+    fn dir_laws(&self, a: usize, k: usize) -> Option<Option<String>> {
+        let g = self;
+        let ia = NodeIndex::<Ix>::new(a);
+        let ids = |it: &mut dyn Iterator<Item = NodeIndex<Ix>>| -> Vec<usize> { it.map(|n| n.index()).collect() };
+        let mut v = vec![];
+        for d in [Direction::Outgoing, Direction::Incoming] {
+            v.push(laws_fresh_mid(&format!("neighbors_directed {:?}", d), &|| g.neighbors_directed(ia, d), k));
+            v.push(laws_fresh_mid(&format!("edges_directed {:?}", d), &|| g.edges_directed(ia, d), k));
+            v.push(laws_fresh_mid(
+                &format!("IntoNeighborsDirected {:?}", d),
+                &|| IntoNeighborsDirected::neighbors_directed(g, ia, d),
+                k,
+            ));
+            v.push(laws_fresh_mid(&format!("IntoEdgesDirected {:?}", d), &|| IntoEdgesDirected::edges_directed(g, ia, d), k));
+            // adaptors with an all-pass filter describe the same graph (neighbours; the orientation of the
+            // pairs `edges_directed(_, Incoming)` yields is open finding D6 and not looked at)
+            let want = ids(&mut g.neighbors_directed(ia, d));
+            let ef = EdgeFiltered::from_fn(g, |_| true);
+            v.push(same(&format!("EdgeFiltered(all).neighbors_directed {:?}", d), ids(&mut (&ef).neighbors_directed(ia, d)), want.clone()));
+            let nf = NodeFiltered::from_fn(g, |_| true);
+            v.push(same(&format!("NodeFiltered(all).neighbors_directed {:?}", d), ids(&mut (&nf).neighbors_directed(ia, d)), want.clone()));
+            v.push(same(&format!("Reversed.neighbors_directed {:?}", d.opposite()), ids(&mut Reversed(g).neighbors_directed(ia, d.opposite())), want.clone()));
+            // the edges route: the far ends of `edges_directed` are the neighbours (either orientation of the pair)
+            let far: Vec<usize> = g
+                .edges_directed(ia, d)
+                .map(|(s, t, _)| if s.index() != a { s.index() } else { t.index() })
+                .collect();
+            v.push(same(&format!("far ends of edges_directed {:?}", d), far, want));
+        }
+        let mut und = ids(&mut UndirectedAdaptor(g).neighbors(ia));
+        und.sort();
+        let mut both = ids(&mut g.neighbors_directed(ia, Direction::Outgoing));
+        both.extend(ids(&mut g.neighbors_directed(ia, Direction::Incoming)));
+        both.sort();
+        v.push(same("UndirectedAdaptor.neighbors = out ++ in", und, both));
+        v.push(same("Reversed.neighbors = in", ids(&mut Reversed(g).neighbors(ia)), ids(&mut g.neighbors_directed(ia, Direction::Incoming))));
+        Some(first_some(v))
+    }
 }
 impl<Null: Nullable<Wrapped = i32>, Ix: IndexType> DirObs for MG<Undirected, Null, Ix> {
     fn nbd(&self, _: usize, _: Direction) -> Option<Vec<usize>> {
@@ -56,6 +230,147 @@ impl<Null: Nullable<Wrapped = i32>, Ix: IndexType> DirObs for MG<Undirected, Nul
     fn edd(&self, _: usize, _: Direction) -> Option<Vec<(usize, usize, i32)>> {
         None
     }
+    fn dir_laws(&self, _: usize, _: usize) -> Option<Option<String>> {
+        None
+    }
+}
+
+/// everything the public API shows of `g` (used to compare two graphs that must be indistinguishable)
+fn full_dump<Ty: EdgeType, Null: Nullable<Wrapped = i32>, Ix: IndexType>(g: &MG<Ty, Null, Ix>) -> String
+where
+    MG<Ty, Null, Ix>: DirObs + DbgObs,
+{
+    let ix = |a: usize| NodeIndex::<Ix>::new(a);
+    let kmax = <Ix as IndexType>::max().index();
+    let b = g.node_bound();
+    let mut s = format!(
+        "n={} e={} b={} dir={} ids={} refs={} erefs={}",
+        g.node_count(),
+        g.edge_count(),
+        b,
+        g.is_directed(),
+        list(g.node_identifiers().map(|n| n.index())),
+        list(g.node_references().map(|(n, w)| format!("{}:{}", n.index(), w))),
+        triples(g.edge_references().map(|(s, t, w)| (s.index(), t.index(), *w)))
+    );
+    let top = (b + 2).min(kmax);
+    for a in 0..=top {
+        let ed = triples(g.edges(ix(a)).map(|(s, t, w)| (s.index(), t.index(), *w)));
+        let nb = list(g.neighbors(ix(a)).map(|n| n.index()));
+        let nw = opt(g.get_node_weight(ix(a)).copied());
+        if ed != "-" || nb != "-" || nw != "none" {
+            s += &format!(" [{} w={} nb={} ed={}", a, nw, nb, ed);
+            if let Some(v) = g.nbd(a, Direction::Incoming) {
+                s += &format!(" nbi={} edi={}", list(v), triples(g.edd(a, Direction::Incoming).unwrap()));
+            }
+            s += "]";
+        }
+    }
+    if b <= 48 {
+        s += " he=";
+        for a in 0..b {
+            for c in 0..b {
+                s.push(if g.has_edge(ix(a), ix(c)) { '1' } else { '0' });
+            }
+        }
+    }
+    s
+}
+
+/// the private capacity as read off `try_update_edge` beyond the bound (each write undone at once)
+fn capbits_mut<Ty: EdgeType, Null: Nullable<Wrapped = i32>, Ix: IndexType>(c: &mut MG<Ty, Null, Ix>) -> String {
+    let ix = |a: usize| NodeIndex::<Ix>::new(a);
+    let kmax = <Ix as IndexType>::max().index();
+    let b = c.node_bound();
+    let mut s = String::from(" cap=");
+    for x in b..(b + 70).min(kmax.saturating_add(1)) {
+        let ok = c.try_update_edge(ix(x), ix(x), 1).is_ok();
+        let _ = c.try_remove_edge(ix(x), ix(x));
+        s.push(if ok { '1' } else { '0' });
+    }
+    s
+}
+
+/// a short deterministic script of calls applied to a graph (used to compare graphs that must behave alike)
+fn script<Ty: EdgeType, Null: Nullable<Wrapped = i32>, Ix: IndexType>(g: &mut MG<Ty, Null, Ix>, seed: u64) -> String
+where
+    MG<Ty, Null, Ix>: DirObs + DbgObs,
+{
+    let mut r = Rng::for_case(seed, "C04-script", 0);
+    let mut out = String::new();
+    let ix = |a: usize| NodeIndex::<Ix>::new(a);
+    for step in 0..(4 + r.below(6)) {
+        let live: Vec<usize> = g.node_identifiers().map(|n| n.index()).collect();
+        match r.below(5) {
+            0 | 1 => out += &format!(" add={:?}", g.try_add_node(1000 + step as i32).map(|n| n.index())),
+            2 | 3 if !live.is_empty() => {
+                let (a, b) = (live[r.below(live.len())], live[r.below(live.len())]);
+                out += &format!(" upd({},{})={:?}", a, b, g.try_update_edge(ix(a), ix(b), 5 + step as i32));
+            }
+            4 if !live.is_empty() => {
+                let a = live[r.below(live.len())];
+                out += &format!(" rm({})={}", a, g.remove_node(ix(a)));
+            }
+            _ => {}
+        }
+    }
+    out += " :: ";
+    out += &full_dump(g);
+    out += &capbits_mut(g);
+    out
+}
+
+/// `clone`, `clone_from` over an arbitrary prior graph, independence of the copies, `&Frozen` view
+/// (`MatrixGraph: Clone` needs `Null: Clone`: `Option<E>` graphs only)
+fn clone_law_opt<Ty: EdgeType + Clone, Ix: IndexType>(
+    g: &MG<Ty, Option<i32>, Ix>,
+    seed: u64,
+    prior_cap: usize,
+    prior_nodes: usize,
+) -> Option<String>
+where
+    MG<Ty, Option<i32>, Ix>: DirObs + DbgObs,
+{
+    let ix = |a: usize| NodeIndex::<Ix>::new(a);
+    let kmax = <Ix as IndexType>::max().index();
+    let before = full_dump(g);
+    let mut c = g.clone();
+    if full_dump(&c) != before {
+        return Some(format!("clone differs: {} vs {}", full_dump(&c), before));
+    }
+    // an arbitrary prior graph (own capacity, nodes, edges, a vacancy)
+    let mut a: MG<Ty, Option<i32>, Ix> = MatrixGraph::with_capacity(prior_cap);
+    for i in 0..prior_nodes.min(kmax) {
+        a.add_node(-(i as i32) - 1);
+    }
+    for i in 1..prior_nodes.min(kmax) {
+        a.update_edge(ix(i), ix(i / 2), 9);
+    }
+    if prior_nodes > 2 {
+        a.remove_node(ix(1));
+    }
+    a.clone_from(g);
+    if full_dump(&a) != before {
+        return Some(format!("clone_from differs from clone: {} vs {}", full_dump(&a), before));
+    }
+    // the same calls on both copies give the same answers (id reuse order, growth, capacity) …
+    let (sa, sc) = (script(&mut a, seed), script(&mut c, seed));
+    if sa != sc {
+        return Some(format!("after clone_from / clone the same calls answer differently: {} vs {}", sa, sc));
+    }
+    // … and the original has not moved
+    if full_dump(g) != before {
+        return Some("mutating a clone changed the original".to_string());
+    }
+    // `&Frozen` describes the same graph
+    let mut f0 = g.clone();
+    let f = Frozen::new(&mut f0);
+    let fr = &f;
+    let e1: Vec<(usize, usize, i32)> = fr.edge_references().map(|(s, t, w)| (s.index(), t.index(), *w)).collect();
+    let e2: Vec<(usize, usize, i32)> = g.edge_references().map(|(s, t, w)| (s.index(), t.index(), *w)).collect();
+    let n1: Vec<usize> = fr.node_identifiers().map(|n| n.index()).collect();
+    let n2: Vec<usize> = g.node_identifiers().map(|n| n.index()).collect();
+    first_some(vec![same("&Frozen edge_references", e1, e2), same("&Frozen node_identifiers", n1, n2)])
 }
 
 fn triples(v: impl IntoIterator<Item = (usize, usize, i32)>) -> String {
@@ -88,7 +403,7 @@ struct Run<'a, Ty: EdgeType, Null: Nullable<Wrapped = i32>, Ix: IndexType> {
 
 impl<'a, Ty: EdgeType, Null: Nullable<Wrapped = i32>, Ix: IndexType> Run<'a, Ty, Null, Ix>
 where
-    MG<Ty, Null, Ix>: DirObs,
+    MG<Ty, Null, Ix>: DirObs + DbgObs,
 {
     fn ix(a: usize) -> NodeIndex<Ix> {
         NodeIndex::new(a)
@@ -219,6 +534,183 @@ where
             &format!("zprobe {} {}", a, b),
             &format!("{} {}", p_or(r, |_| "ok".into()), obs.unwrap_or_else(|| "panic".into())),
         );
+    }
+    fn emit_law(&mut self, name: &str, r: Option<Option<String>>) {
+        let v = match r {
+            Some(x) => law_verdict(x),
+            None => "VIOLATED the check panicked".to_string(),
+        };
+        self.ctx.line(&format!("law {}", name), &v);
+    }
+    /// the nodes whose row iterators are put under the laws: lowest, highest, two random live ids, one id
+    /// that is not a node (vacant or beyond the bound)
+    fn law_nodes(&self, rng: &mut Rng) -> Vec<usize> {
+        let mut v = vec![];
+        if !self.live.is_empty() {
+            v.push(self.live[0]);
+            v.push(*self.live.last().unwrap());
+            v.push(self.live[rng.below(self.live.len())]);
+            v.push(self.live[rng.below(self.live.len())]);
+        }
+        if let Some(d) = self.pick_dead(rng) {
+            v.push(d);
+        }
+        v.sort();
+        v.dedup();
+        v
+    }
+    /// LAWS checked against the implementation itself (no state change): the `Iterator` contract of every
+    /// iterator the matrix hands out (fresh and mid-iteration), `Debug` of the iterators, trait views.
+    fn laws(&mut self, rng: &mut Rng) {
+        self.refresh();
+        let k = rng.below(4);
+        let r = catch(|| laws_fresh_mid("node_identifiers", &|| self.g.node_identifiers(), k));
+        self.emit_law("iter node_identifiers", r);
+        let r = catch(|| laws_fresh_mid("node_references", &|| self.g.node_references(), k));
+        self.emit_law("iter node_references", r);
+        let ke = rng.below(6);
+        let r = catch(|| laws_fresh_mid("edge_references", &|| self.g.edge_references(), ke));
+        self.emit_law("iter edge_references", r);
+        for a in self.law_nodes(rng) {
+            let k = rng.below(3);
+            let ia = Self::ix(a);
+            let r = catch(|| {
+                let g = &self.g;
+                first_some(vec![
+                    laws_fresh_mid("neighbors", &|| g.neighbors(ia), k),
+                    laws_fresh_mid("IntoNeighbors::neighbors", &|| IntoNeighbors::neighbors(g, ia), k),
+                    laws_fresh_mid("edges", &|| g.edges(ia), k),
+                    laws_fresh_mid("IntoEdges::edges", &|| IntoEdges::edges(g, ia), k),
+                    // the all-pass adaptors describe the same row
+                    same(
+                        "EdgeFiltered(all).neighbors",
+                        (&EdgeFiltered::from_fn(g, |_| true)).neighbors(ia).map(|n| n.index()).collect::<Vec<_>>(),
+                        g.neighbors(ia).map(|n| n.index()).collect::<Vec<_>>(),
+                    ),
+                    same(
+                        "NodeFiltered(all).neighbors",
+                        (&NodeFiltered::from_fn(g, |_| true)).neighbors(ia).map(|n| n.index()).collect::<Vec<_>>(),
+                        g.neighbors(ia).map(|n| n.index()).collect::<Vec<_>>(),
+                    ),
+                    g.dbg_iters(a, k),
+                    same(
+                        "targets of edges = neighbors",
+                        g.edges(ia).map(|(_, t, _)| t.index()).collect::<Vec<_>>(),
+                        g.neighbors(ia).map(|n| n.index()).collect::<Vec<_>>(),
+                    ),
+                ])
+            });
+            self.emit_law(&format!("iter row {}", a), r);
+            if let Some(r) = catch(|| self.g.dir_laws(a, k)).map_or(Some(None), |x| x.map(Some)) {
+                self.emit_law(&format!("iter row_directed {}", a), r);
+            }
+        }
+        // trait views of the same graph
+        let r = catch(|| {
+            let g = &self.g;
+            let er: Vec<(usize, usize, i32)> = g.edge_references().map(|(s, t, w)| (s.index(), t.index(), *w)).collect();
+            let ef = EdgeFiltered::from_fn(g, |_| true);
+            let nf = NodeFiltered::from_fn(g, |_| true);
+            let ids: Vec<usize> = g.node_identifiers().map(|n| n.index()).collect();
+            first_some(vec![
+                same("NodeCount::node_count", NodeCount::node_count(g), g.node_count()),
+                same("node_identifiers().count()", g.node_identifiers().count(), g.node_count()),
+                same("node_references().count()", g.node_references().count(), g.node_count()),
+                same("EdgeCount::edge_count", EdgeCount::edge_count(g), g.edge_count()),
+                same("edge_references().count()", g.edge_references().count(), g.edge_count()),
+                same("is_directed", g.is_directed(), Ty::is_directed()),
+                same("GraphProp::is_directed", GraphProp::is_directed(g), Ty::is_directed()),
+                same(
+                    "EdgeFiltered(all).edge_references",
+                    (&ef).edge_references().map(|(s, t, w)| (s.index(), t.index(), *w)).collect::<Vec<_>>(),
+                    er.clone(),
+                ),
+                same("NodeFiltered(all).node_identifiers", (&nf).node_identifiers().map(|n| n.index()).collect::<Vec<_>>(), ids.clone()),
+                same(
+                    "node_references ids",
+                    g.node_references().map(|(n, _)| n.index()).collect::<Vec<_>>(),
+                    ids.clone(),
+                ),
+                ids.iter().find_map(|&i| {
+                    let n = Self::ix(i);
+                    if g.to_index(n) != i || g.from_index(i) != n || i >= g.node_bound() {
+                        Some(format!("NodeIndexable: id {} to_index {} bound {}", i, g.to_index(n), g.node_bound()))
+                    } else if g.get_node_weight(n) != Some(&g[n]) || g.node_weight(n) != &g[n] {
+                        Some(format!("node weight routes differ at {}", i))
+                    } else {
+                        None
+                    }
+                }),
+                er.iter().find_map(|&(a, b, w)| {
+                    let (ia, ib) = (Self::ix(a), Self::ix(b));
+                    if !g.has_edge(ia, ib) || !g.is_adjacent(&g.adjacency_matrix(), ia, ib) {
+                        Some(format!("edge_references yields {}:{} but has_edge/is_adjacent deny it", a, b))
+                    } else if g.get_edge_weight(ia, ib) != Some(&w) || g[(ia, ib)] != w || *g.edge_weight(ia, ib) != w {
+                        Some(format!("edge weight routes differ at {}:{}", a, b))
+                    } else {
+                        None
+                    }
+                }),
+            ])
+        });
+        self.emit_law("views", r);
+        // Visitable / VisitMap (FixedBitSet): a fresh map, and a map made for another graph after reset_map
+        let other = rng.below(2 * self.g.node_bound() + 3);
+        let r = catch(|| {
+            let g = &self.g;
+            let b = g.node_bound();
+            let check = |m: &mut <MG<Ty, Null, Ix> as Visitable>::Map, what: &str| -> Option<String> {
+                for &i in &self.live {
+                    let n = Self::ix(i);
+                    if m.is_visited(&n) {
+                        return Some(format!("{}: node {} is visited in a clean map", what, i));
+                    }
+                    if m.unvisit(n) || m.is_visited(&n) {
+                        return Some(format!("{}: unvisit of the unvisited node {} answers true / marks it", what, i));
+                    }
+                    if !m.visit(n) || !m.is_visited(&n) || m.visit(n) {
+                        return Some(format!("{}: visit({}) does not mark exactly once", what, i));
+                    }
+                    if i % 2 == 0 && (!m.unvisit(n) || m.is_visited(&n)) {
+                        return Some(format!("{}: unvisit({}) of a visited node", what, i));
+                    }
+                }
+                None
+            };
+            let mut m = g.visit_map();
+            if m.len() < b {
+                return Some(format!("visit_map has {} bits for node_bound {}", m.len(), b));
+            }
+            if let Some(e) = check(&mut m, "visit_map") {
+                return Some(e);
+            }
+            // a workspace made for a smaller / larger graph, dirty
+            let mut h: MG<Ty, Null, Ix> = MatrixGraph::with_capacity(0);
+            for _ in 0..other.min(self.kmax) {
+                let _ = h.try_add_node(0);
+            }
+            let mut m2 = h.visit_map();
+            for i in 0..m2.len() {
+                if i % 3 != 1 {
+                    m2.visit(Self::ix(i));
+                }
+            }
+            g.reset_map(&mut m2);
+            if m2.len() < b {
+                return Some(format!("reset_map leaves {} bits for node_bound {}", m2.len(), b));
+            }
+            check(&mut m2, &format!("reset_map of a map for {} nodes", other))
+        });
+        self.emit_law("visit_map", r);
+    }
+    /// `clone`, `clone_from`, independence of the copies, `&Frozen` (graphs that are `Clone`)
+    fn clone_laws(&mut self, rng: &mut Rng) {
+        let (seed, prior_cap, prior_nodes) = (rng.next(), rng.below(12), rng.below(9));
+        match catch(|| self.g.clone_law(seed, prior_cap, prior_nodes)) {
+            Some(None) => {}
+            Some(Some(r)) => self.emit_law("clone_from", Some(r)),
+            None => self.emit_law("clone_from", None),
+        }
     }
     fn pick_live(&self, rng: &mut Rng) -> usize {
         if self.live.is_empty() {
@@ -358,13 +850,13 @@ where
     /// one random call; `grow` = the phase that adds more than it removes
     fn op(&mut self, rng: &mut Rng, grow: bool, want_nodes: usize) {
         let n = self.live.len();
-        let ws: [u32; 11] = if grow && n < want_nodes {
-            //  add  edge+ edge-  node-  query wmut clear extend probe badrm capscan
-            [30, 40, 5, 3, 9, 4, 0, 3, 4, 3, 2]
+        let ws: [u32; 13] = if grow && n < want_nodes {
+            //  add  edge+ edge-  node-  query wmut clear extend probe badrm capscan laws clone
+            [30, 40, 5, 3, 9, 4, 0, 3, 4, 3, 2, 1, 0]
         } else if grow {
-            [6, 40, 12, 8, 14, 6, 1, 3, 6, 5, 2]
+            [6, 40, 12, 8, 14, 6, 1, 3, 6, 5, 2, 2, 1]
         } else {
-            [10, 26, 18, 16, 12, 5, 1, 2, 5, 5, 2]
+            [10, 26, 18, 16, 12, 5, 1, 2, 5, 5, 2, 3, 1]
         };
         let k = if n == 0 { 0 } else { rng.weighted(&ws) };
         match k {
@@ -428,7 +920,13 @@ where
                 if rng.chance(50) {
                     let a = self.pick_any(rng, 12);
                     let w = self.next_serial();
-                    let r = catch(|| if a % 2 == 0 { *self.g.node_weight_mut(Self::ix(a)) = w } else { self.g[Self::ix(a)] = w });
+                    let route = rng.below(3);
+                    let r = catch(|| match route {
+                        0 => *self.g.node_weight_mut(Self::ix(a)) = w,
+                        1 => self.g[Self::ix(a)] = w,
+                        // `None` exactly where `node_weight_mut` panics
+                        _ => *self.g.get_node_weight_mut(Self::ix(a)).expect("no such node") = w,
+                    });
                     self.ctx.line(&format!("node_weight_mut {} {}", a, w), &p_or(r, |_| "ok".into()));
                     self.dump(&[], false);
                 } else {
@@ -452,7 +950,13 @@ where
                         w = 7; // writing the sentinel through `&mut E` is outside the documented use
                     }
                     let (ia, ib) = (Self::ix(a), Self::ix(b));
-                    let r = catch(|| if a % 2 == 0 { *self.g.edge_weight_mut(ia, ib) = w } else { self.g[(ia, ib)] = w });
+                    let route = rng.below(3);
+                    let r = catch(|| match route {
+                        0 => *self.g.edge_weight_mut(ia, ib) = w,
+                        1 => self.g[(ia, ib)] = w,
+                        // `None` exactly where `edge_weight_mut` panics
+                        _ => *self.g.get_edge_weight_mut(ia, ib).expect("no such edge") = w,
+                    });
                     self.ctx.line(&format!("edge_weight_mut {} {} {}", a, b, w), &p_or(r, |_| "ok".into()));
                     self.dump(&[a, b], false);
                 }
@@ -495,6 +999,8 @@ where
                 self.capscan();
                 self.dump(&[], false);
             }
+            11 => self.laws(rng),
+            12 => self.clone_laws(rng),
             8 => {
                 // edge-writing call with an endpoint that does not exist (outside the property: exact only)
                 if let Some(dead) = self.pick_dead(rng) {
@@ -539,6 +1045,64 @@ where
     }
 }
 
+/// `Default::default()` ≡ `with_capacity(0)` ≡ `with_capacity_and_hasher(0, _)` (≡ `new()` /
+/// `new_undirected()` where they exist); `with_capacity(k)` ≡ `with_capacity_and_hasher(k, _)`: the same dump,
+/// and the same answers to the same calls afterwards.  `MatrixError`: `Display`/`Debug`/`==`/`Clone`.
+fn ctor_laws<Ty: EdgeType, Null: Nullable<Wrapped = i32>, Ix: IndexType>(
+    seed: u64,
+    k: usize,
+    special: Option<fn() -> MG<Ty, Null, Ix>>,
+) -> Option<String>
+where
+    MG<Ty, Null, Ix>: DirObs + DbgObs,
+{
+    let mut zero: Vec<(&str, MG<Ty, Null, Ix>)> = vec![
+        ("default", Default::default()),
+        ("with_capacity(0)", MatrixGraph::with_capacity(0)),
+        ("with_capacity_and_hasher(0)", MatrixGraph::with_capacity_and_hasher(0, RandomState::new())),
+    ];
+    if let Some(f) = special {
+        zero.push(("new", f()));
+    }
+    let mut first: Option<String> = None;
+    for (name, g) in zero.iter_mut() {
+        if g.node_count() != 0 || g.edge_count() != 0 || g.node_bound() != 0 || g.is_directed() != Ty::is_directed() {
+            return Some(format!("{} is not the empty graph", name));
+        }
+        let d = format!("{} || {}", full_dump(g), script(g, seed));
+        match &first {
+            None => first = Some(d),
+            Some(f) => {
+                if *f != d {
+                    return Some(format!("{} and default() differ: {} vs {}", name, d, f));
+                }
+            }
+        }
+    }
+    let mut a: MG<Ty, Null, Ix> = MatrixGraph::with_capacity(k);
+    let mut b: MG<Ty, Null, Ix> = MatrixGraph::with_capacity_and_hasher(k, RandomState::new());
+    let (da, db) = (format!("{} || {}", full_dump(&a), script(&mut a, seed)), format!("{} || {}", full_dump(&b), script(&mut b, seed)));
+    if da != db {
+        return Some(format!("with_capacity({}) and with_capacity_and_hasher({}, _) differ: {} vs {}", k, k, da, db));
+    }
+    if petgraph::matrix_graph::node_index(k) != NodeIndex::new(k) || petgraph::matrix_graph::node_index(k).index() != k {
+        return Some(format!("node_index({})", k));
+    }
+    let errs = [MatrixError::NodeIxLimit, MatrixError::NodeMissed(k), MatrixError::NodeMissed(k + 1)];
+    for (i, e) in errs.iter().enumerate() {
+        let shown = format!("{} {:?} {:#?} {:>30} {:.3}", e, e, e, e, e);
+        if shown.is_empty() || *e != e.clone() {
+            return Some(format!("MatrixError {:?}: Display/Clone/==", e));
+        }
+        for (j, f) in errs.iter().enumerate() {
+            if (e == f) != (i == j) {
+                return Some(format!("MatrixError: {:?} == {:?} is {}", e, f, e == f));
+            }
+        }
+    }
+    None
+}
+
 fn run_case<Ty: EdgeType, Null: Nullable<Wrapped = i32>, Ix: IndexType>(
     ctx: &mut Ctx,
     rng: &mut Rng,
@@ -547,7 +1111,7 @@ fn run_case<Ty: EdgeType, Null: Nullable<Wrapped = i32>, Ix: IndexType>(
     w: u32,
     special: Option<fn() -> MG<Ty, Null, Ix>>,
 ) where
-    MG<Ty, Null, Ix>: DirObs,
+    MG<Ty, Null, Ix>: DirObs + DbgObs,
 {
     let dir = Ty::is_directed();
     ctx.raw(&format!("case {} {} {} w={}", case, if dir { "dir" } else { "undir" }, if nz { "nz" } else { "opt" }, w));
@@ -619,6 +1183,15 @@ fn run_case<Ty: EdgeType, Null: Nullable<Wrapped = i32>, Ix: IndexType>(
     if rng.chance(50) {
         run.capscan();
     }
+    // corners: the laws on the graph as constructed (mostly the EMPTY graph), the constructors among themselves
+    if rng.chance(30) {
+        run.laws(rng);
+    }
+    if rng.chance(20) {
+        let (seed, k) = (rng.next(), rng.below(34));
+        let r = catch(|| ctor_laws::<Ty, Null, Ix>(seed, k, special));
+        run.emit_law("constructors", r);
+    }
 
     if family == 3 {
         // the u8 node limit: 255 nodes (ids 0..=254), then the documented panic / Err
@@ -667,6 +1240,10 @@ fn run_case<Ty: EdgeType, Null: Nullable<Wrapped = i32>, Ix: IndexType>(
         }
         run.dump(&[], false);
         run.capscan();
+        run.laws(rng);
+        if rng.chance(40) {
+            run.clone_laws(rng);
+        }
         if rng.chance(50) {
             run.zprobe(rng);
         }
@@ -691,6 +1268,10 @@ fn run_case<Ty: EdgeType, Null: Nullable<Wrapped = i32>, Ix: IndexType>(
     }
     run.dump(&[], true);
     run.capscan();
+    run.laws(rng);
+    if rng.chance(40) {
+        run.clone_laws(rng);
+    }
     if rng.chance(50) {
         run.zprobe(rng);
     }
